@@ -1,6 +1,6 @@
 (* C16 -- compilation is deterministic.  Pinned statements only. *)
 From Coq Require Import String List NArith Bool Permutation.
-From Sylt Require Import Det.Consumers Det.ConsumersProofs Det.DocHashSites Gen.GenHashSites.
+From Sylt Require Import Det.Consumers Det.ConsumersProofs Det.DocHashSites Det.DocKeyTypes Det.HashKeys Gen.GenHashSites.
 Import ListNotations.
 
 Fixpoint sites_eqb (a : list site) (b : list (string * string * string * string)) : bool :=
@@ -39,7 +39,67 @@ Example C16_example :
   = run (fun e => negb (snd e =? 0)%N) SortedFirstErr [(2, 5); (3, 7); (1, 0)]%N.
 Proof. vm_compute. reflexivity. Qed.
 
+(* ---- hash KEYS: lookups must not depend on the random state either ---- *)
+Fixpoint mentions (sub s : string) : bool :=
+  match s with
+  | EmptyString => match sub with EmptyString => true | _ => false end
+  | String _ s' => orb (String.prefix sub s) (mentions sub s')
+  end.
+
+Fixpoint key_types_eqb (a : list key_type) (b : list (string * string * string * string * string * string)) : bool :=
+  match a, b with
+  | [], [] => true
+  | k :: a', (f, t, d, e, o, h) :: b' =>
+      String.eqb (k_file k) f && String.eqb (k_type k) t && String.eqb (k_derives k) d
+      && String.eqb (k_eq k) e && String.eqb (k_ord k) o && String.eqb (k_hash k) h && key_types_eqb a' b'
+  | _, _ => false
+  end.
+
+(* a derived Hash looks at every field: it is consistent only with an equality over every field, which a
+   hand-written `eq` in this list is not; a hand-written hash must have been reviewed to read exactly the
+   fields the equality reads; no Hash at all: the type cannot be a key *)
+Definition key_consistent (k : key_type) : bool :=
+  if mentions "Hash"%string (k_derives k) then false
+  else match k_hash k, k_hash_fields k with
+       | EmptyString, None => true
+       | String _ _, Some fs => if list_eq_dec string_dec fs (k_eq_fields k) then true else false
+       | _, _ => false
+       end.
+
+(* Obligation 3 (table tie): the hand-written PartialEq/Ord/Hash impls found in /repo on this run are
+   exactly the reviewed ones (derives and impl bodies). *)
+Theorem C16_key_types_covered : key_types_eqb doc_key_types GenHashSites.key_types = true.
+Proof. vm_compute. reflexivity. Qed.
+
+(* Obligation 4: every reviewed type hashes exactly what it compares (or is not hashable). *)
+Theorem C16_key_types_consistent : forallb key_consistent doc_key_types = true.
+Proof. vm_compute. reflexivity. Qed.
+
+(* For any key type, key equality and any two hash functions that respect that equality: membership after
+   any sequence of insertions, and the "declared twice" verdict of the parser's insert-if-absent loop, are
+   the same -- they equal a specification that does not mention the hash function at all. *)
+Theorem C16_contains_spec : forall (K : Type) (eqb : K -> K -> bool) h, respects K eqb h -> forall ks k,
+  contains K eqb h (build K h ks) k = existsb (eqb k) ks.
+Proof. exact contains_spec. Qed.
+
+Theorem C16_duplicate_verdict_independent_of_hash : forall (K : Type) (eqb : K -> K -> bool) h1 h2,
+  respects K eqb h1 -> respects K eqb h2 -> forall ks, has_duplicate K eqb h1 ks = has_duplicate K eqb h2 ks.
+Proof. exact has_duplicate_independent_of_hash. Qed.
+
+(* ... and why the contract matters (the shape Identifier had before /repo 1fc1000). *)
+Theorem C16_inconsistent_hash_changes_the_verdict :
+  exists (h1 h2 : N * N -> N) ks,
+    respects (N * N) name_eqb h1 /\
+    has_duplicate (N * N) name_eqb h1 ks = true /\ has_duplicate (N * N) name_eqb h2 ks = false.
+Proof. exact inconsistent_hash_changes_the_verdict. Qed.
+
+
 Print Assumptions C16_sites_covered.
 Print Assumptions C16_all_sites_order_free.
 Print Assumptions C16_order_free_invariant.
 Print Assumptions C16_first_err_order_sensitive.
+Print Assumptions C16_key_types_covered.
+Print Assumptions C16_key_types_consistent.
+Print Assumptions C16_contains_spec.
+Print Assumptions C16_duplicate_verdict_independent_of_hash.
+Print Assumptions C16_inconsistent_hash_changes_the_verdict.
